@@ -1435,6 +1435,16 @@ class Interp:
     def ev_LambdaExpr(self, e):
         return Closure(e["callop"], None)
 
+    # -- new ------------------------------------------------------------------------------
+    def ev_CXXNewExpr(self, e):
+        """`new X(args)` (single object, handed to a smart pointer): a fresh cell holding the constructed value."""
+        init = [c for c in kids(e) if c is not None]
+        if not init:
+            raise OutOfFragment("new without an initialiser")
+        v = self.ev(init[-1])
+        cell = {"obj": val(v) if self._is_construct(init[-1]) else copy_value(v)}
+        return Pointer(LV(cell, "obj"))
+
     # -- throw ---------------------------------------------------------------------------
     def ev_CXXThrowExpr(self, e):
         code = None
